@@ -37,9 +37,12 @@ CLOSED-FORM DOMAIN (Lemmas/LayoutSmall.lean, Props/C04Small.lean, Props/C06Small
 clause of `ComposeDomain` / `FlatDomain` / `NestedDomain` follows from plain bounds on the input, `SmallObject o` (ELF64;
 < 2^16 sections and segments; section sizes and alignments, segment alignments < 2^40; a member with an explicit
 address lies in [p_vaddr, p_vaddr + 2^40)) - `smallObject_layoutNW`, `Compose.composeDomain_of_small`.  `noWrap64InB`
-(NoWrap64 of the OUTPUT) is still a Bool check that runs the layout; closed form: the section half is proved
-(`C04.save_sections_noWrap_small`: SmallObject + SmallAddrs2 => addr+size, offset+size < 2^64 for every saved section),
-the segment half (vaddr+memsz, offset+filesz) needs bounds on the mem/file counters - see families/c04.py.
+(NoWrap64 of the OUTPUT) in closed form for the FLAT domain: `C04.noWrap64_of_small_flat` - FlatDomain + SmallObject +
+`SmallAddrs2` (addresses, offsets, segment vaddr < 2^62; index-0 / SHT_NULL sections at offset 0; < 2^16 members) +
+p_memsz < 2^62 => `NoWrap64 r.obj.secs r.obj.segs`, the hypothesis `hw` of `loaded_satisfies_Loaded_flat` /
+`reload_resave_fields_flat` (and of C06 `save_load_save_flat`, C20 `validate_silent_reloaded_flat`).  For nested
+segments `noWrap64InB` remains a Bool check that runs the layout (section half closed-form:
+`C04.save_sections_noWrap_small`) - see families/c04.py.
 Only covered by correspondence/oracle: `Loaded` for the re-saved form of a LOADED (not created) object with
 nested segments, equality (not only >=) of reloaded memory sizes, ELF32 equidistance.
 Correspondence: family load.  Oracle: object 0 loads the image and is
@@ -77,7 +80,8 @@ THEOREMS = ["ElfioVerif.C05.save_writes_fields",
             "ElfioVerif.Compose.loaded_satisfies_Loaded_nested",
             "ElfioVerif.Compose.loaded_satisfies_Loaded_flat_input",
             "ElfioVerif.smallObject_layoutNW_preSave",
-            "ElfioVerif.Compose.composeDomain_of_small"]
+            "ElfioVerif.Compose.composeDomain_of_small",
+            "ElfioVerif.C04.noWrap64_of_small_flat"]
 EXTRA_IMPORTS = ["ElfioVerif.Props.Compose", "ElfioVerif.Props.Compose2", "ElfioVerif.Props.C06Small"]
 SITES = ["save_", "lsws", "lst_", "lseg", "wsd", "load_s", "sec32_load", "sec64_load"]
 RULE = ("well-formed images whose segment contents are covered by sections (encoder-built linker-like images in 4 "
